@@ -1,4 +1,6 @@
 import Pyxv.Proofs.BackendsLemmas
+import Pyxv.Proofs.BackendsCsv
+import Pyxv.Proofs.BackendsMd
 /-!
 # C12 — container format and delivery channel do not matter
 
@@ -239,5 +241,65 @@ theorem path_suffix_is_file_type (bin : FileType → Str → Except Err Book) (s
 
 example : (getXlsform (fun _ _ => .error .readError) (.path "f".toList ".md".toList)
     "| survey |\n| | type | name |\n| | text | a |".toList none).toOption.map Prod.snd = some (some "f".toList) := by decide
+
+
+/-! ## the text containers read back the workbook they render -/
+
+/-- **csv reader/writer.** `csv.reader` inverts the `QUOTE_ALL` writer on every list of records
+(any characters: quotes, commas, CR, LF; empty records and fields). -/
+theorem csvRead_csvWrite (rows : List (List Str)) : csvRead (csvWrite rows) = rows := Csv.csvRead_write rows
+
+/-- **csv_roundtrip.** For every workbook satisfying the decidable guard `Csv.CsvOK` whose rendering
+passes the `is_csv` sniffer, `csv_to_dict` of the rendered CSV is the dict container of the workbook. -/
+theorem csv_roundtrip (wb : Workbook) (h : Csv.CsvOK wb = true) (hc : isCsv (renderCsv wb) = true) :
+    csvToDict (renderCsv wb) = .ok (toBook wb) := Csv.csv_roundtrip wb h hc
+
+/-- **md_roundtrip.** Same for Markdown under `Md.MdOK` and the `is_markdown_table` sniffer. -/
+theorem md_roundtrip (wb : Workbook) (h : Md.MdOK wb = true) (hm : isMarkdownTable (renderMd wb) = true) :
+    mdToDict (renderMd wb) = .ok (toBook wb) := Md.md_roundtrip wb h hm
+
+theorem getXlsform_md (bin : FileType → Str → Except Err Book) (c : Channel) (wb : Workbook)
+    (h : Md.MdOK wb = true) (hm : isMarkdownTable (renderMd wb) = true) :
+    getXlsform bin c (renderMd wb) (some .md) =
+      match toDefinition (toBook wb) with
+      | .error e => .error e
+      | .ok b => .ok (b, stemOf c) := by
+  rw [getXlsform_eq]
+  simp only [tryParsers, parser, md_roundtrip wb h hm]
+  cases c <;> rfl
+
+theorem getXlsform_csv (bin : FileType → Str → Except Err Book) (c : Channel) (wb : Workbook)
+    (h : Csv.CsvOK wb = true) (hc : isCsv (renderCsv wb) = true) :
+    getXlsform bin c (renderCsv wb) (some .csv) =
+      match toDefinition (toBook wb) with
+      | .error e => .error e
+      | .ok b => .ok (b, stemOf c) := by
+  rw [getXlsform_eq]
+  simp only [tryParsers, parser, csv_roundtrip wb h hc]
+  cases c <;> rfl
+
+/-- **channel_independent.** On the model: a workbook inside both guards, rendered as Markdown or
+as CSV and delivered through any two channels (with the container's `file_type`), is parsed to the
+same workbook structure — the dict container `toBook wb` — and the only trace of the channel is the
+stem a path supplies. -/
+theorem channel_independent (bin : FileType → Str → Except Err Book) (c₁ c₂ : Channel) (wb : Workbook)
+    (hmd : Md.MdOK wb = true) (hm : isMarkdownTable (renderMd wb) = true)
+    (hcsv : Csv.CsvOK wb = true) (hc : isCsv (renderCsv wb) = true) :
+    (getXlsform bin c₁ (renderMd wb) (some .md)).map Prod.fst =
+      (getXlsform bin c₂ (renderCsv wb) (some .csv)).map Prod.fst := by
+  rw [getXlsform_md bin c₁ wb hmd hm, getXlsform_csv bin c₂ wb hcsv hc]
+  cases toDefinition (toBook wb) <;> rfl
+
+/-- non-vacuity: a two-sheet workbook inside both guards; both channels give `toBook` -/
+def exBoth : Workbook :=
+  [⟨"survey".toList, ["type".toList, "name".toList, "label".toList],
+     [["text".toList, "a".toList, "A|B \"q\"".toList], ["note".toList, [], "N".toList]]⟩,
+   ⟨"choices".toList, ["list_name".toList, "name".toList], [["l".toList, "x".toList]]⟩]
+
+example : Md.MdOK exBoth = true ∧ Csv.CsvOK exBoth = true ∧ isMarkdownTable (renderMd exBoth) = true ∧
+    isCsv (renderCsv exBoth) = true := by decide
+
+example : (getXlsform (fun _ _ => .error .readError) (.path "f".toList ".md".toList) (renderMd exBoth) (some .md)).toOption
+    = some (toBook exBoth, some "f".toList) := by decide +kernel
 
 end Pyxv.Backends
